@@ -7,6 +7,9 @@
 #include <boost/gil.hpp>
 #include <boost/mp11.hpp>
 
+#include <array>
+#include <algorithm>
+#include <vector>
 #include <thread>
 
 namespace gil = boost::gil;
@@ -231,6 +234,60 @@ template <class SH, class DH> static void check_pair(u64 seed, int rounds, u64& 
             DV out1;
             static_transform(s, out1, [](auto const& a) { return a; });
             for (int c = 0; c < N; ++c) VCHECK(color_get(out1, c) == sv[c], "static_transform (1 source) did not pair by colour", c);
+        }
+        {
+            // every const / non-const overload of the two- and three-argument algorithms, with DIFFERENT values in the two sources:
+            // the recorded (first, second[, third]) channel values must be exactly the by-colour pairs, each once
+            using DV = typename DP::value_type;
+            for (int c = 0; c < N; ++c) color_set(d, c, dv[c]);
+            auto const& cs = s;
+            auto const& cd = d;
+            std::vector<std::array<double, 3>> want, got;
+            for (int c = 0; c < N; ++c) want.push_back({sv[c], dv[c], sv[c]});
+            std::sort(want.begin(), want.end());
+            auto settle = [&](const char* what, bool three) {
+                std::sort(got.begin(), got.end());
+                if (!three) for (auto& g : got) g[2] = g[0];
+                VCHECK(got == want, what, ": the channels handed to the operation are not the by-colour pairs of the sources; first pair seen", got.empty() ? -1.0 : got[0][0], got.empty() ? -1.0 : got[0][1]);
+                got.clear();
+            };
+            auto rec2 = [&got](auto const& a, auto const& b) { got.push_back({rd(a), rd(b), 0.0}); return a; };
+            auto rec3 = [&got](auto const& a, auto const& b, auto const& e) { got.push_back({rd(a), rd(b), rd(e)}); };
+            auto tr = [&](auto& a, auto& b, const char* what) {
+                DV out;
+                static_transform(a, b, out, rec2);
+                settle(what, false);
+                for (int c = 0; c < N; ++c) VCHECK(color_get(out, c) == sv[c], what, ": result colour", c, "is", color_get(out, c), "but the first source has", sv[c]);
+            };
+            tr(s, d, "static_transform(P1&, P2&)");
+            tr(s, cd, "static_transform(P1&, const P2&)");
+            tr(cs, d, "static_transform(const P1&, P2&)");
+            tr(cs, cd, "static_transform(const P1&, const P2&)");
+            auto fe2 = [&](auto& a, auto& b, const char* what) { static_for_each(a, b, [&](auto const& x, auto const& y) { rec2(x, y); }); settle(what, false); };
+            fe2(s, d, "static_for_each(P1&, P2&)");
+            fe2(s, cd, "static_for_each(P1&, const P2&)");
+            fe2(cs, d, "static_for_each(const P1&, P2&)");
+            fe2(cs, cd, "static_for_each(const P1&, const P2&)");
+            DV third(s);
+            auto const& cthird = third;
+            auto fe3 = [&](auto& a, auto& b, auto& e, const char* what) { static_for_each(a, b, e, rec3); settle(what, true); };
+            fe3(s, d, third, "static_for_each(P1&, P2&, P3&)");
+            fe3(s, d, cthird, "static_for_each(P1&, P2&, const P3&)");
+            fe3(s, cd, third, "static_for_each(P1&, const P2&, P3&)");
+            fe3(s, cd, cthird, "static_for_each(P1&, const P2&, const P3&)");
+            fe3(cs, d, third, "static_for_each(const P1&, P2&, P3&)");
+            fe3(cs, d, cthird, "static_for_each(const P1&, P2&, const P3&)");
+            fe3(cs, cd, third, "static_for_each(const P1&, const P2&, P3&)");
+            fe3(cs, cd, cthird, "static_for_each(const P1&, const P2&, const P3&)");
+            // one-source forms through the const reference too
+            DV outc;
+            static_transform(cs, outc, [](auto const& a) { return a; });
+            for (int c = 0; c < N; ++c) VCHECK(color_get(outc, c) == sv[c], "static_transform(const P1&) did not pair by colour", c);
+            double sumc = 0, wantc = 0;
+            static_for_each(cs, [&](auto const& a) { sumc += rd(a); });
+            for (int c = 0; c < N; ++c) wantc += sv[c];
+            VCHECK(sumc == wantc, "static_for_each(const P1&) did not visit each channel once");
+            static_copy(s, d);
         }
         ++n;
     }
